@@ -160,7 +160,7 @@ def run(ctx):
         arm, case = table[v][0]
         bf = bound_fields(case)
         names = [b for b in bf.values() if b]
-        ev = pt.arm_events(arm["body"], names)
+        ev = pt.arm_events(arm["body"], names, variant=v)
         out_param = genf.param_names()[-1]
         text = "".join(e[1] if e[0] == "lit" else "\x00" for e in ev if e[0] == "child" or (e[0] in ("lit", "hole") and e[2] == out_param))
         arm_lits[v] = (ev, text)
